@@ -38,6 +38,17 @@ def cases(draw, tier):
     cfg['maxiter'] = k + m + 3
     # DE settings given as Step/Solve keywords (as Solve(strategy=...) forwards them to every Step) instead of attributes
     cfg['de_kwargs'] = cfg['solver'] in ('DE', 'DE2') and draw(st.booleans())
+    # the other solvers' sticky Step/Solve keywords (Powell: line-search settings, Nelder-Mead: simplex settings)
+    if cfg['solver'] == 'PW' and draw(st.booleans()):
+        cfg['step_kwargs'] = dict(xtol=draw(st.sampled_from([1e-7, 1e-2, 1e-3])), imax=draw(st.sampled_from([500, 500, 3])))
+    elif cfg['solver'] == 'NM' and draw(st.booleans()):
+        cfg['step_kwargs'] = dict(adaptive=draw(st.booleans()), radius=draw(st.sampled_from([0.05, 0.1, 0.3])))
+    # benign re-decorations (the same penalty / constraints / ranges installed again, Finalize) before given iterations,
+    # made in the uninterrupted run and in the checkpointed one alike; mostly around the checkpoint
+    if draw(st.integers(0, 2)) == 0:
+        hows = ['penalty', 'constraints', 'finalize'] + (['ranges', 'ranges'] if cfg.get('bounds') else [])
+        cfg['reconf'] = [[draw(st.sampled_from([k, k, max(1, k - 1), k + 1, k + 2])), draw(st.sampled_from(hows))]
+                         for _ in range(draw(st.integers(1, 2)))]
     cfg.update(path=path, savefreq=n, k=k, m=m,
                stepmon=draw(st.sampled_from([None, 'plain', 'verbose', 'logging', 'vlogging'])),
                evalmon=draw(st.sampled_from([None, 'plain', 'plain', 'logging'])),
@@ -49,6 +60,8 @@ def cases(draw, tier):
 
 def de_kw(case):
     """the keywords a Solve(strategy=..., CrossProbability=..., ScalingFactor=...) call forwards to every Step"""
+    if case.get('step_kwargs'):
+        return dict((k, (F(v) if isinstance(v, float) else v)) for k, v in case['step_kwargs'].items())
     if not case.get('de_kwargs'):
         return {}
     import mystic.strategy as mstrat
@@ -81,6 +94,25 @@ def _mon(kind, d, name, k=None):
     return VerboseLoggingMonitor(1, 1, filename=os.path.join(d, name + '.log'), **kw)
 
 
+def _reconf(case, run, solver, step_index):
+    """the benign re-decorations planned before iteration `step_index` (same settings installed again)"""
+    n = 0
+    for at, how in case.get('reconf') or []:
+        if at != step_index or step_index < 1:
+            continue
+        n += 1
+        if how == 'penalty':
+            solver.SetPenalty(run.pen)
+        elif how == 'constraints':
+            solver.SetConstraints(run.con)
+        elif how == 'finalize':
+            solver.Finalize()
+        elif how == 'ranges':
+            b = run.cfg['bounds']
+            solver.SetStrictRanges(list(run.box[0]), list(run.box[1]), tight=b.get('tight'), clip=b.get('clip'))
+    return n
+
+
 def run_case(case, ctx):
     import dill
     from mystic.solvers import LoadSolver
@@ -91,6 +123,7 @@ def run_case(case, ctx):
     SA = []
     kwA = de_kw(case)
     for b in range(total + 1):
+        _reconf(case, runA, runA.solver, b)
         msg = runA.solver.Step(callback=runA.cb, **kwA)       # uninterrupted: the keywords on every Step, as Solve does
         SA.append(lab.snapshot(runA.solver))
         if msg: break
@@ -111,6 +144,7 @@ def run_case(case, ctx):
                 with open(fnB, 'rb') as fh:
                     blob['bytes'] = fh.read()          # copy the dump at once: later saves overwrite the file
     for b in range(k + 1):
+        _reconf(case, runB, sB, b)
         sB.Step(callback=cb, **kwA)
         d = lab.snap_equal(SA[b], lab.snapshot(sB))
         if d is not None:
@@ -142,6 +176,7 @@ def run_case(case, ctx):
     # ---- optionally advance the original first (it must follow A, and must not disturb the restored one)
     cost = runB.cost
     for j in range(case['advance']):
+        _reconf(case, runB, sB, k + 1 + j)
         sB.Step(callback=runB.cb, **kwA)
         d = lab.snap_equal(SA[k + 1 + j], lab.snapshot(sB))
         ctx.expect(d is None, 'C06.original_continues', lambda: dict(solver=runB.kind, boundary=k + 1 + j, differs=d, path=path))
@@ -172,6 +207,8 @@ def run_case(case, ctx):
     for j in range(m + (k - base)):
         c0 = cost.ncalls(); e0 = int(s2.evaluations)
         orig_before = lab.snapshot(sB)
+        if _reconf(case, runB, s2, int(s2.generations) + 1):
+            ctx.label('re-decorated-after-restore')
         s2.Step(callback=lambda x: cbs2.append(1))
         made = cost.ncalls() - c0
         got = lab.snapshot(s2)
@@ -204,6 +241,8 @@ def run_case(case, ctx):
     if case.get('constraint'): ctx.label('con:' + case['constraint']['kind'])
     if case['advance']: ctx.label('original-advanced-first')
     if case.get('de_kwargs'): ctx.label('de-settings-as-keywords')
+    if case.get('step_kwargs'): ctx.label('sticky-step-keywords')
+    if case.get('reconf'): ctx.label('re-decorations:' + ','.join(sorted(set(h for _, h in case['reconf']))))
     ctx.label('monitor-k:%s' % case.get('monk'))
     ctx.nontrivial(k >= 1 and n_steps >= 2 and changed)
 
